@@ -325,6 +325,10 @@ class Folder:
         full = f"{v.name}.{attr}"
         if v.name == "re" and attr.isupper() and hasattr(re, attr):
             return getattr(re, attr)
+        if full in ("math.inf", "math.nan", "math.pi", "math.e", "math.tau"):
+            import math
+
+            return getattr(math, attr)  # the float constants of the standard library
         if full in ("sys.stdin", "sys.stdout", "sys.stderr"):
             return ExtRef(full)
         return ExtRef(full)
